@@ -1,6 +1,7 @@
 (* C15  The test-run flag alone controls whether test and docs directories are analysed. *)
 From Coq Require Import List Bool Permutation.
 From SV Require Import Lib.Str Gen.Tables Model.Types Model.Api Model.Discover Model.View Model.Front Proofs.DiscoverProofs Proofs.WalkProofs.
+From SV Require Import Model.Layout Model.Run Proofs.RunProofs.
 
 (* a globbed file is analysed iff (flag or no path segment is one of the three names) and it is not an __init__ file *)
 Theorem C15_filter_spec : forall tr files f,
@@ -53,6 +54,13 @@ Theorem C15_no_module_from_excluded_directories : forall v o md,
      (ends_with t_init_file (mf_path m) = true /\
       exists f, In f (v_glob v) /\ in_excluded_dir f = false /\ is_init_file f = true /\ parent_dir f = init_package_path (mf_path m))).
 Proof. exact no_module_from_excluded_directories. Qed.
+Theorem C15_run_modules_are_filtered : forall v nc fs0 o md,
+  run v nc fs0 = Ok o -> In md (api_modules (out_api o)) ->
+  exists m, In (GMod m) (v_graph v) /\ m_id md = dots_to_slashes (mf_fullname m) /\
+    let '(walkable, packages) := discover (v_test_run v) (v_glob v) in
+    ((ends_with t_init_file (mf_path m) = true /\ In (init_package_path (mf_path m)) packages) \/
+     (ends_with t_init_file (mf_path m) = false /\ In (mf_path m) walkable)).
+Proof. exact run_modules_are_filtered. Qed.
 Print Assumptions C15_filter_spec.
 Print Assumptions C15_package_spec.
 Print Assumptions C15_exact_segments.
@@ -62,3 +70,4 @@ Print Assumptions C15_flag_irrelevant_outside.
 Print Assumptions C15_walk_respects_filter.
 Print Assumptions C15_front_modules_are_filtered.
 Print Assumptions C15_no_module_from_excluded_directories.
+Print Assumptions C15_run_modules_are_filtered.
